@@ -1915,6 +1915,36 @@ func (m *repoManager) merge(parents []dvid.UUID, note string, mt MergeType) (dvi
 	}
 	m.repoMutex.RUnlock()
 
+	// Validate all parents before anything is modified: each must be a distinct, committed
+	// node of this repo.
+	parentNodes := make([]*nodeT, len(parents))
+	parentVersions := make([]dvid.VersionID, len(parents))
+	seen := make(map[dvid.VersionID]struct{}, len(parents))
+	for i, parent := range parents {
+		v, err := m.versionFromUUID(parent)
+		if err != nil {
+			return dvid.NilUUID, err
+		}
+		if _, dup := seen[v]; dup {
+			return dvid.NilUUID, fmt.Errorf("parent %s specified more than once in merge", parent)
+		}
+		seen[v] = struct{}{}
+		r.RLock()
+		node, found := r.dag.nodes[v]
+		r.RUnlock()
+		if !found {
+			return dvid.NilUUID, ErrInvalidVersion
+		}
+		node.RLock()
+		locked := node.locked
+		node.RUnlock()
+		if !locked {
+			return dvid.NilUUID, ErrBranchUnlockedNode
+		}
+		parentNodes[i] = node
+		parentVersions[i] = v
+	}
+
 	// Add the child node.  Since it's new and unavailable, no need to lock it.
 	childUUID, childV, err := m.newUUID(nil)
 	if err != nil {
@@ -1932,26 +1962,9 @@ func (m *repoManager) merge(parents []dvid.UUID, note string, mt MergeType) (dvi
 	r.Unlock()
 
 	// Set up pointers with parents
-	for _, parent := range parents {
-		v, err := m.versionFromUUID(parent)
-		if err != nil {
-			return dvid.NilUUID, err
-		}
-		r.RLock()
-		node, found := r.dag.nodes[v]
-		r.RUnlock()
-		if !found {
-			return dvid.NilUUID, ErrInvalidVersion
-		}
-
+	for i, node := range parentNodes {
 		node.Lock()
-		if !node.locked {
-			node.Unlock()
-			return dvid.NilUUID, ErrBranchUnlockedNode
-		}
-
-		// Add this parent node
-		child.parents = append(child.parents, v)
+		child.parents = append(child.parents, parentVersions[i])
 		node.children = append(node.children, childV)
 		node.updated = time.Now()
 		node.Unlock()
